@@ -45,7 +45,7 @@ CLAIMS = {
    ref="DESIGN.md 9 C03"),
  "C07": dict(
    text="Theorems: atomic commit points imply linearizability w.r.t. the counter/swap specification (C07_commit_points_linearize), checker soundness, and the sum formula (final = "
-        "initial + sum of deltas in any order); the owner-side model Model/DMap.v implements, key by key and for every routing, the counter with fetch-and-add and swap over Go's wrapping int64 (C07_dmap_step_refines_counter; Itoa/ParseInt round trip C07_int_text_round_trip), hence its executions with commit points have linearizable per-key histories (C07_dmap_executions_linearize); the per-key mutex internal/locker gives mutual exclusion for every number of threads and every interleaving of its atomic stretches, the holder's Unlock never fails, no entry leaks (C07_locker_mutual_exclusion, C07_locker_holder_unlocks, C07_locker_no_leak; Model/Locker.v, tied by driving the real Locker with goroutines and comparing returned/blocked calls and its map after every call). Executed: 2-4 concurrent callers through 7 entry points (embedded owner/non-owner/backup, cluster client, raw RESP, pipeline) in "
+        "initial + sum of deltas in any order); the owner-side model Model/DMap.v implements, key by key and for every routing, the counter with fetch-and-add and swap over Go's wrapping int64 (C07_dmap_step_refines_counter; Itoa/ParseInt round trip C07_int_text_round_trip), hence its executions with commit points have linearizable per-key histories (C07_dmap_executions_linearize); the per-key mutex internal/locker gives mutual exclusion for every number of threads and every interleaving of its atomic stretches, the holder's Unlock never fails, no entry leaks (C07_locker_mutual_exclusion, C07_locker_holder_unlocks, C07_locker_no_leak, C07_locker_blocked_by_a_holder; read-then-write under that mutex is an atomic read-modify-write for every interleaving: C07_read_then_write_under_the_mutex_is_atomic, necessary: C07_lost_update_without_the_mutex_refuted; Model/Locker.v, tied by driving the real Locker with goroutines and comparing returned/blocked calls and its map after every call). Executed: 2-4 concurrent callers through 7 entry points (embedded owner/non-owner/backup, cluster client, raw RESP, pipeline) in "
         "Incr/Decr, GetPut and mixed modes; closed-form predicates (sum, single chain) and the linearizability checker inside Coq on every history. Incr on counters that cannot be read with ReadQuorum copies (quorum harness) must be refused (C07_incr_refused_when_unreadable). A fourth mode mixes Incr/Decr with IncrByFloat of integral amounts on one key (same sum rule, same checker).",
    note=TB + "sync.Mutex / atomic.AddInt32 are assumed (internal/locker on top of them is modelled and proved); that atomic.go takes the lock around Get;compute;Put is attacked by the concurrent runs; IncrByFloat runs concurrently with integral amounts only (float text is an oracle).",
    ref="DESIGN.md 9 C07"),
